@@ -68,6 +68,11 @@ func (p *Validator) ValidateReader(r io.Reader) error {
 	buf := make([]byte, readBufSize)
 	eof := false
 	cnt, err := r.Read(buf)
+	for cnt < 4 && err == nil && (cnt == 0 || buf[0] == 0xEF) { // a BOM may be split across reads
+		var n int
+		n, err = r.Read(buf[cnt:])
+		cnt += n
+	}
 	buf = buf[:cnt]
 	if err != nil {
 		if !errors.Is(err, io.EOF) {
